@@ -38,6 +38,12 @@ def gen_cases(ctx):
         if spec is None:
             continue
         cfg = dict(max_cholesky_size=rng.choice([None, None, 0]), fast_root=rng.choice([None, None, False]))
+        if rng.random() < 0.06:
+            # contour-integral sampling THROUGH a pivoted-Cholesky preconditioner (size thresholds lowered): low-rank-ish + diagonal
+            nn = rng.choice([6, 8, 10])
+            sp = zoo.gen_spec(rng, "pd", nn, nn, rng.choice([[], [], [2]]), depth=1, dtype="f64", root="AddedDiag")
+            if sp is not None:
+                yield dict(spec=sp, k=nn, cfg=dict(max_cholesky_size=None, fast_root=None), ciq=True, ciq_precond=rng.choice([2, 3]), seed=rng.randrange(1 << 30))
         yield dict(spec=spec, k=rng.choice([1, 2, 3]), cfg=cfg, ciq=rng.random() < 0.15, seed=rng.randrange(1 << 30))
 
 
@@ -80,6 +86,9 @@ def run_case(case, ctx):
     if ciq:
         st.enter_context(settings.ciq_samples(True))
         st.enter_context(settings.minres_tolerance(1e-10))
+        if case.get("ciq_precond"):
+            st.enter_context(settings.min_preconditioning_size(1))
+            st.enter_context(settings.max_preconditioner_size(case["ciq_precond"]))
     with st, Recorder(keep=("lanczos",), clone=False) as rec, warnings.catch_warnings():
         warnings.simplefilter("ignore")
         res, ex = compare.attempt(sample, None)
@@ -104,6 +113,25 @@ def run_case(case, ctx):
             return
         if ciq and nz0.shapes != [(*batch, n, k)]:
             ciq = False  # the class has a sampler of its own (diagonal, block, sum of parts ...): probed like any other
+        if ciq and case.get("ciq_precond"):
+            # with a preconditioner the contour-integral root is P^{1/2} M^{1/2}, a non-symmetric square root: probe it with the
+            # basis (k = n samples, noise = identity) and judge R R^T = A
+            Zi = torch.eye(n, dtype=torch.float64).expand(*batch, n, n).contiguous()
+            sz, nzz = sample(Zi.reshape(-1))
+            ctx.stat("sampler_calls")
+            ctx.stat("path:ciq_preconditioned")
+            if nzz.shapes != [(*batch, n, n)]:
+                ctx.inconclusive("preconditioned contour-integral sampler drew its noise in another layout")
+                return
+            R = sz.to(torch.float64).permute(*range(1, len(batch) + 1), -1, 0)  # (*batch, n, k): column i = sample for e_i
+            e = compare.relerr(R @ R.mT, A64, scale=1e-300)
+            if not e <= 1e-3:
+                ctx.fail("ciq_preconditioned_covariance", "value", err=e, detail=f"R R^T differs from A by {e:.2e} (preconditioner rank {case['ciq_precond']})",
+                         **dict(kw, tags=set(tags) | {"path:ciq", "precond"}))
+            else:
+                ctx.ok("ciq_preconditioned_covariance", f"{spec['cls']}|ciq|precond{case['ciq_precond']}|b{len(batch)}", True,
+                       sample=dict(spec=zoo.class_path(spec, 3), path="ciq+preconditioner", n=n, err=e))
+            return
         if ciq:
             # the quadrature rule depends (weakly) on the noise itself through its Lanczos eigenvalue estimate, so the map is only linear
             # up to quadrature accuracy: judge the sample for one recorded noise vector against A^{1/2} z directly
@@ -153,7 +181,9 @@ def run_case(case, ctx):
     if not torch.isfinite(M).all():
         ctx.fail("finite", "value", detail="non-finite samples", **dict(kw, tags=set(tags) | {"path:" + pathk}))
         return
-    scale = lam_max if lam_max > 1e-12 else 1.0
+    # relative to the matrix, but never below 1e-2: the factorizations add jitter of 1e-8 .. 1e-4 of the *factors'* scale, so a matrix
+    # that is numerically zero next to its own building blocks (an interpolation that cancels a rank-1 base) is judged absolutely
+    scale = max(lam_max, 1e-2)
     eps = torch.finfo(dt).eps
     if dt == torch.float32 and not kappa <= 1e6:
         ctx.stat("float32_singular_covariance(inconclusive)")
